@@ -383,6 +383,77 @@ func c12Race(a, b, iters int64) []int64 {
 
 var c12Cache sync.Map
 
+// mode 2, scenario 100: the map is filled with nk thousand keys and then emptied to a tenth by Delete calls of 500 keys
+// (whatever the implementation does when a large map has shrunk - rebuild, compaction - happens here), while four
+// writers work on keys of their own that nobody else touches: Set then Get must read the value just written, Delete
+// then Has must be false, SetNx on the absent key must succeed, Len never exceeds what was ever stored.  [0] = no anomaly.
+func c12HighWater(nk, rounds int) []int64 {
+	if nk < 1 || nk > 400 || rounds < 1 || rounds > 20 {
+		return []int64{BADCASE}
+	}
+	N := int64(nk) * 1000
+	var bad atomic.Int64
+	for round := 0; round < rounds; round++ {
+		s := mapz.NewSafeKV[int64, int64](0)
+		for k := int64(0); k < N; k++ {
+			s.Set(k, k)
+		}
+		var stop atomic.Bool
+		var wg sync.WaitGroup
+		for w := int64(0); w < 4; w++ {
+			wg.Add(1)
+			go func(k int64) {
+				defer wg.Done()
+				for v := int64(1); !stop.Load(); v++ {
+					s.Set(k, v)
+					if g, ok := s.Get(k); !ok || g != v {
+						bad.Add(1)
+					}
+					if v%3 == 0 {
+						s.Delete(k)
+						if s.Has(k) {
+							bad.Add(1)
+						}
+						if !s.SetNx(k, v) {
+							bad.Add(1)
+						}
+						if g, ok := s.Get(k); !ok || g != v {
+							bad.Add(1)
+						}
+					}
+					if n := int64(s.Len()); n > N+4 {
+						bad.Add(1)
+					}
+				}
+			}(N + w)
+		}
+		chunk := make([]int64, 0, 500)
+		for k := int64(0); k < N-N/10; k++ {
+			chunk = append(chunk, k)
+			if len(chunk) == 500 {
+				s.Delete(chunk...)
+				chunk = chunk[:0]
+			}
+		}
+		s.Delete(chunk...)
+		stop.Store(true)
+		wg.Wait()
+		own := int64(0) // a writer that never got to run has no key
+		for w := int64(0); w < 4; w++ {
+			if s.Has(N + w) {
+				own++
+			}
+		}
+		if int64(s.Len()) != N/10+own {
+			bad.Add(1)
+		}
+	}
+	if bad.Load() != 0 {
+		return []int64{2}
+	}
+	return []int64{0}
+}
+
 func c12Impl(in []int64) []int64 {
 	if len(in) < 2 {
 		return []int64{BADCASE}
@@ -408,6 +479,9 @@ func c12Impl(in []int64) []int64 {
 	case 2:
 		if len(in) != 4 {
 			return []int64{BADCASE}
+		}
+		if in[1] == 100 {
+			return c12HighWater(int(in[2]), int(in[3]))
 		}
 		return c12Race(in[1], in[2], in[3])
 	case 3:
@@ -644,6 +718,10 @@ func c12Gen(c *Ctx) {
 		}
 		t.Try("race-pair", pairs[i], true)
 	})
+	for _, nk := range []int64{3, 70, 140} {
+		t0 := []int64{2, 100, nk, int64(c.N(3, 12))}
+		c.Each(1, func(i int, t *T) { t.Try("own-key-writers-while-a-large-map-shrinks", t0, true) })
+	}
 	if c12RaceErr != "" {
 		c.Note("race binary: " + c12RaceErr)
 	}
@@ -732,6 +810,9 @@ func c12Describe(in []int64) string {
 		return "?"
 	case 2:
 		if len(in) == 4 {
+			if in[1] == 100 {
+				return fmt.Sprintf("a SafeKV filled with %d000 keys is emptied to a tenth by Delete calls of 500 keys while 4 writers Set/Get/Delete/Has/SetNx keys of their own, %d rounds (impl output 0 = every writer read its own writes, 2 = a writer did not)", in[2], in[3])
+			}
 			return fmt.Sprintf("go test -race: 2+2 goroutines calling %s and %s %d times each on one SafeKV, each goroutine also doing a Set every 64 iterations (impl output 1 = DATA RACE reported, 2 = runtime died)",
 				c12Names[((in[1]%16)+16)%16], c12Names[((in[2]%16)+16)%16], in[3])
 		}
